@@ -172,7 +172,7 @@ char ZCK_PUBLIC_API *zck_get_range_char(zckCtx *zck, zckRange *range) {
             free(output);
             return NULL;
         }
-        if(length > buf_size-loc) {
+        if(length >= buf_size-loc) {
             buf_size = (int)(buf_size * 1.5);
             output = zrealloc(output, buf_size);
             if (!output) {
@@ -184,6 +184,11 @@ char ZCK_PUBLIC_API *zck_get_range_char(zckCtx *zck, zckRange *range) {
         loc += length;
         count++;
         ri = ri->next;
+    }
+    if(loc == 0) {
+        /* No ranges: return an empty string */
+        output[0] = '\0';
+        return zrealloc(output, 1);
     }
     output[loc-1]='\0'; // Remove final comma
     output = zrealloc(output, loc);
